@@ -180,6 +180,40 @@ def rule_FP(run: Run) -> RuleResult:
                 whyf or f"{n_ret} returning path(s): one {{key: value}} entry for each key of keys({opt})",
                 "a reported key left out of the fingerprint no longer separates cache entries: two option dictionaries that differ "
                 "only under that key share a stored result (C01, C03)")
+        # a value that is a sequence keeps its order on the way into the fingerprint: [1, 2] and [2, 1] are different values (only what has
+        # no order of its own — a set, the entries of a mapping — may be sorted into one)
+        from .interp import Frame as _Fr
+        bad_order = ""
+        n_reord = 0
+
+        def reordered_values(t, out, d=0):
+            if isinstance(t, Sym) and t.head.startswith("reordered:") and V in t.key():
+                out.append(t)
+            for a in list(getattr(t, "args", ()) or ()) + list(getattr(t, "items", ()) or ()) + ([t.elem] if hasattr(t, "elem") else []):
+                if d < 12:
+                    reordered_values(a, out, d + 1)
+            return out
+        for p in fps:
+            if p.status != "ret" or p.ret is None or "reordered:" not in p.ret.key():
+                continue
+            ro = reordered_values(p.ret, [])
+            if not ro:
+                continue
+            n_reord += 1
+            unordered = False
+            for k_, pol_ in _Fr.atoms(p.conds).items():
+                if pol_ is True and k_.startswith(f"call:isinstance({V},"):
+                    kinds = set(_re.findall(r"(?:name|ext|class)<([^>]+)>", k_[len(f"call:isinstance({V},"):]))
+                    kinds = {x.split(".")[-1] for x in kinds}
+                    if kinds and kinds <= {"set", "frozenset", "Set", "AbstractSet", "MutableSet", "Mapping", "dict", "MutableMapping", "KeysView", "ItemsView"}:
+                        unordered = True
+            if not unordered and not bad_order:
+                bad_order = f"a path sorts the value itself ({ro[0].key()[:80]}) without having established that it is a set or a mapping: lists and tuples that differ in order share a fingerprint"
+        if True:
+            res.add(f"{cons}:a sequence value keeps its order", not bad_order, f, fn.lineno,
+                    bad_order or (f"{n_reord} path(s) sort a value, each only after isinstance(value, <set / mapping>)" if n_reord else "no path re-orders a value"),
+                    "the value under a reported key separates cache entries: two lists with the same elements in a different order are different values (C03, C08: "
+                    "a dataset and its with_options variants share one cache)")
         if c.name != "Cacheable":
             res.notes.append(f"override of fingerprint in {c.qualname} held to the same rule")
     return res
@@ -474,7 +508,14 @@ def rule_MC(run: Run) -> RuleResult:
             continue
         saw_fail = True
         # a KeyError raised while computing the key or indexing the memo dictionary
-        by_key = any(e.kind == "call" and e.failed for e in p.events)
+        first_access = next((i_ for i_, e in enumerate(p.events) if e.kind == "call" and e.target is not None and e.target.key() == C_), len(p.events))
+        failed_ = [(i_, e) for i_, e in enumerate(p.events) if e.kind == "call" and e.failed]
+        by_key = any(i_ <= first_access for i_, e in failed_)
+        late = [e for i_, e in failed_ if i_ > first_access]
+        if late and ok:
+            # the entry was found, and something done with it afterwards failed: the entry is there, whatever went wrong is no miss
+            ok, why = False, (f"raises CacheGetFailure after the entry was found (when {late[0].text} at line {late[0].line} fails): the value is stored but can never be "
+                              "read, so every request recomputes it (and runs its effects) again")
         for k_, pol in Frame.atoms(p.conds).items():
             if k_.startswith("cmp:In(") and k_.endswith(f",{C_})") and pol is False:
                 by_key = True
@@ -731,6 +772,173 @@ def _may_raise(repo, cache_mod, fns, handlers, exc_name):
                 direct_sites[q] = hit
                 changed = True
     return may, direct_sites
+
+
+# ------------------------------------------------------------------ R-LM
+def _local_value_memos(fn) -> List[tuple]:
+    """[(line, container, key text, why)] — a container created in ``fn`` that is asked `key in container` (or indexed under try/except
+    KeyError, or read with .get(key)) and filled, under the same kind of key, with the result of an evaluation; keys that are the
+    ``id()`` of an object are left out (the very same object asked twice is one request)."""
+    amap = dict(astu.single_assign_map(fn))
+    for d_ in ast.walk(fn):
+        if isinstance(d_, (ast.FunctionDef, ast.Lambda)) and d_ is not fn and isinstance(d_, ast.FunctionDef):
+            for k_, v_ in astu.single_assign_map(d_).items():
+                amap.setdefault(k_, v_)
+    local = set()
+    for st in ast.walk(fn):
+        if isinstance(st, (ast.Assign, ast.AnnAssign)) and getattr(st, "value", None) is not None:
+            v = st.value
+            fresh = isinstance(v, (ast.Dict, ast.Set)) and not (v.keys if isinstance(v, ast.Dict) else v.elts) \
+                or (isinstance(v, ast.Call) and isinstance(v.func, ast.Name) and v.func.id in ("dict", "set", "OrderedDict", "defaultdict") and not v.args and not v.keywords)
+            if fresh:
+                for t in (st.targets if isinstance(st, ast.Assign) else [st.target]):
+                    if isinstance(t, ast.Name):
+                        local.add(t.id)
+    if not local:
+        return []
+
+    def key_is_identity(k) -> bool:
+        k = astu.expand_locals(k, amap) if isinstance(k, ast.Name) else k
+        return isinstance(k, ast.Call) and isinstance(k.func, ast.Name) and k.func.id == "id"
+
+    def evaluates(v) -> bool:
+        for c in ast.walk(v):
+            if isinstance(c, ast.Call) and isinstance(c.func, ast.Attribute) and c.func.attr in ("evaluate", "transform"):
+                return True
+            if isinstance(c, ast.Call) and any(isinstance(a, ast.Name) and a.id == "options" for a in c.args) and isinstance(c.func, (ast.Attribute, ast.Call)):
+                return True
+        return False
+
+    asked = {}
+    for x in ast.walk(fn):
+        if isinstance(x, ast.Compare) and len(x.ops) == 1 and isinstance(x.ops[0], (ast.In, ast.NotIn)) and isinstance(x.comparators[0], ast.Name) and x.comparators[0].id in local:
+            asked.setdefault(x.comparators[0].id, []).append(x.left)
+        if isinstance(x, ast.Call) and isinstance(x.func, ast.Attribute) and x.func.attr in ("get", "setdefault") and isinstance(x.func.value, ast.Name) and x.func.value.id in local and x.args:
+            asked.setdefault(x.func.value.id, []).append(x.args[0])
+    out = []
+    for x in ast.walk(fn):
+        tgt = val = None
+        if isinstance(x, ast.Assign) and len(x.targets) == 1 and isinstance(x.targets[0], ast.Subscript) and isinstance(x.targets[0].value, ast.Name) and x.targets[0].value.id in local:
+            tgt, key, val = x.targets[0].value.id, x.targets[0].slice, x.value
+        elif isinstance(x, ast.Call) and isinstance(x.func, ast.Attribute) and x.func.attr == "setdefault" and isinstance(x.func.value, ast.Name) and x.func.value.id in local and len(x.args) == 2:
+            tgt, key, val = x.func.value.id, x.args[0], x.args[1]
+        if tgt is None or tgt not in asked:
+            continue
+        val = astu.expand_locals(val, amap) if isinstance(val, ast.Name) else val
+        if not evaluates(val) or key_is_identity(key):
+            continue
+        out.append((x.lineno, tgt, ast.unparse(astu.expand_locals(key, amap) if isinstance(key, ast.Name) else key)[:50],
+                    f"`{tgt}` hands the result of an earlier evaluation out again for a key that looks the same"))
+    return out
+
+
+def _dedupes_by_value(fn, cls_info=None) -> List[tuple]:
+    """[(line, what)] — a loop over expressions (a child collection of the class, or a parameter annotated as a collection of
+    Evaluatable) that decides `seen before` by repr()/str()/hash() of the expression or by == (`x in earlier`, `earlier.index(x)`)."""
+    def holds_nodes(it) -> bool:
+        base = it
+        if isinstance(base, ast.Call) and isinstance(base.func, ast.Attribute) and base.func.attr in ("values", "items") and not base.args:
+            base = base.func.value
+        if isinstance(base, ast.Attribute) and isinstance(base.value, ast.Name) and base.value.id == "self" and cls_info is not None:
+            for kc in cls_info.mro():
+                ann = kc.annotations.get(base.attr)
+                if ann is not None and "Evaluatable" in ast.unparse(ann):
+                    return True
+        if isinstance(base, ast.Name):
+            for a_ in fn.args.posonlyargs + fn.args.args + fn.args.kwonlyargs + ([fn.args.vararg] if fn.args.vararg else []):
+                if a_.arg == base.id and a_.annotation is not None and "Evaluatable" in ast.unparse(a_.annotation):
+                    return True
+        return False
+
+    fresh = set()
+    for st in ast.walk(fn):
+        if isinstance(st, (ast.Assign, ast.AnnAssign)) and getattr(st, "value", None) is not None:
+            v = st.value
+            if (isinstance(v, (ast.Dict, ast.Set, ast.List)) and not (v.keys if isinstance(v, ast.Dict) else v.elts)) or (
+                    isinstance(v, ast.Call) and isinstance(v.func, ast.Name) and v.func.id in ("dict", "set", "list", "OrderedDict") and not v.args and not v.keywords):
+                for t in (st.targets if isinstance(st, ast.Assign) else [st.target]):
+                    if isinstance(t, ast.Name):
+                        fresh.add(t.id)
+    out = []
+    for loop in ast.walk(fn):
+        if not (isinstance(loop, ast.For) and isinstance(loop.target, (ast.Name, ast.Tuple)) and holds_nodes(loop.iter)):
+            continue
+        names = {n_.id for n_ in ast.walk(loop.target) if isinstance(n_, ast.Name)}
+        amap = astu.single_assign_map(fn)
+
+        def by_text(k) -> bool:
+            k = astu.expand_locals(k, amap) if isinstance(k, ast.Name) and k.id not in names else k
+            return isinstance(k, ast.Call) and isinstance(k.func, ast.Name) and k.func.id in ("repr", "str", "hash") and len(k.args) == 1 \
+                and isinstance(k.args[0], ast.Name) and k.args[0].id in names
+
+        for x in ast.walk(loop):
+            if isinstance(x, ast.Call) and isinstance(x.func, ast.Attribute) and isinstance(x.func.value, ast.Name) and x.func.value.id in fresh and x.args:
+                if x.func.attr in ("setdefault", "add", "get", "__contains__") and by_text(x.args[0]):
+                    out.append((x.lineno, f"`{ast.unparse(x)[:60]}`: expressions that print alike are taken for one"))
+                if x.func.attr == "index" and isinstance(x.args[0], ast.Name) and x.args[0].id in names:
+                    out.append((x.lineno, f"`{ast.unparse(x)[:60]}`: == between expressions (Value(1) == Value(True)) decides which one is meant"))
+            if isinstance(x, ast.Subscript) and isinstance(x.value, ast.Name) and x.value.id in fresh and by_text(x.slice):
+                out.append((x.lineno, f"`{ast.unparse(x)[:60]}`: expressions that print alike are taken for one"))
+            if isinstance(x, ast.Compare) and len(x.ops) == 1 and isinstance(x.ops[0], (ast.In, ast.NotIn)) and isinstance(x.comparators[0], ast.Name) and x.comparators[0].id in fresh:
+                if by_text(x.left):
+                    out.append((x.lineno, f"`{ast.unparse(x)[:60]}`: expressions that print alike are taken for one"))
+                elif isinstance(x.left, ast.Name) and x.left.id in names:
+                    out.append((x.lineno, f"`{ast.unparse(x)[:60]}`: == between expressions (Value(1) == Value(True)) decides whether one was seen before"))
+    return out
+
+
+def rule_LM(run: Run) -> RuleResult:
+    """Within one evaluation, results are reused through the cache only."""
+    res = RuleResult("R-LM")
+    repo = run.repo
+    nec = ("whether a repeated evaluation may be answered from an earlier result is the cache's decision — and that of the switches that turn it off: "
+           "an expression that keeps the results of its parts in a table of its own for the duration of one evaluate() (a Map over repeated "
+           "option sets, arguments that look alike) hands them out again with caching disabled, runs effects and the log request once instead of "
+           "once per evaluation (C16), and, keyed by repr or by value, confuses parts that merely look the same")
+    probe = ast.parse("def evaluate(self, options):\n    seen = {}\n    for x in self.parts:\n        k = repr(x)\n        if k not in seen:\n            seen[k] = x.evaluate(options)\n        yield seen[k]\n").body[0]
+    if not _local_value_memos(probe):
+        raise AnalysisError("R-LM: the detector no longer sees its positive example")
+    n = 0
+    for ci in repo.classes.values():
+        if ci.module.name.startswith("labrea.mypy") or not (ci.is_subclass_of("Evaluatable") or ci.is_subclass_of("Effect")):
+            continue
+        starts = [m_ for m_ in ("evaluate", "transform", "__call__") if m_ in ci.methods]
+        if not starts:
+            continue
+        n += 1
+        hits = []
+        for mn, fn in astu.reachable_self_methods(ci, starts).items():
+            if mn in ("validate", "keys", "explain", "__init__", "__repr__"):
+                continue
+            for h in _local_value_memos(fn):
+                hits.append((mn,) + h)
+        res.add(f"{ci.qualname}:keeps no table of results of its own during an evaluation", not hits, ci.module.relpath, hits[0][1] if hits else ci.node.lineno,
+                "no local value-keyed memo on the evaluation path" if not hits else f"{hits[0][0]}: {hits[0][4]} (key {hits[0][3]})", nec)
+    if n < 20:
+        raise AnalysisError(f"R-LM: only {n} classes with an evaluation path found")
+    # the module-level helpers the operations call evaluate on their behalf
+    for fi in repo.functions.values():
+        if fi.module.name.startswith("labrea.mypy"):
+            continue
+        for h in _local_value_memos(fi.node):
+            res.add(f"{fi.module.name}.{fi.node.name}:keeps no table of results of its own during an evaluation", False, fi.module.relpath, h[0], f"{h[3]} (key {h[2]})", nec)
+    # ... and the parts of an expression are told apart by identity alone: two Options with the same key but different domains print alike,
+    # Value(1) == Value(True); collapsing such parts drops the second one's keys, validation, requests and value
+    probe2 = ast.parse("def f(parts: 'Iterable[Evaluatable]'):\n    seen = {}\n    for part in parts:\n        seen.setdefault(repr(part), part)\n    return list(seen.values())\n").body[0]
+    if not _dedupes_by_value(probe2):
+        raise AnalysisError("R-LM: the dedupe detector no longer sees its positive example")
+    n_f = 0
+    from .model import iter_functions
+    for m, cls_node, fn, q in iter_functions(repo):
+        if m.name.startswith("labrea.mypy"):
+            continue
+        n_f += 1
+        ci = repo.classes.get(f"{m.name}.{cls_node.name}") if cls_node is not None else None
+        for line_, what in _dedupes_by_value(fn, ci):
+            res.add(f"{q}:tells the parts of an expression apart by identity", False, m.relpath, line_, what, nec)
+    res.add("labrea:every function tells the parts of an expression apart by identity (never by repr, str, hash or ==)", True, "labrea/types.py", 1, f"{n_f} functions inspected", nec, trivial=True)
+    res.count("classes", n)
+    return res
 
 
 # ------------------------------------------------------------------ R-OS
